@@ -67,14 +67,16 @@ CHECKS["C04"] = dict(
 
 CHECKS["C06"] = dict(
     category="model_checking",
-    technique="symbolic execution of DecodeInteger<T> / WriteIntegerToTextStream<Stream,T> from clang -O2 LLVM IR (ll2smt) with z3 bit-vector queries: all texts of a stated shape, all values of each type",
+    technique="symbolic execution of DecodeInteger<T> / WriteIntegerToTextStream<Stream,T> from clang -O2 LLVM IR (ll2smt) with z3 bit-vector queries: all texts of a stated shape, all values of each type; plus dynamic symbolic execution (pysym) of the front-end passes and header generator with the text_output attribute as a symbolic choice",
     text="Integer text codec clause only (the last sentence of the property).  Bounded: DecodeInteger is executed on every text "
          "of up to 6 (quick) / 7 (thorough) arbitrary bytes and on boundary families (a head of the type's limit in base 2/10/16 "
          "followed by free characters) for all eight integer types: accepted only if digits/underscores with at least one digit, "
          "in range, and with exactly the mathematical value (no wrap); documented formats in range are accepted; no access outside "
          "the string or *result.  decode(encode(x)) == x and 'output is a documented number format' for every x of every type in "
-         "base 2 and 16 (with/without grouping) and in base 10 for 8/16-bit types.",
-    note="NOT claimed: the structure level of C06 (WriteToString/UpdateFromText of whole views, Skip/Emit, emission order, "
+         "base 2 and 16 (with/without grouping) and in base 10 for 8/16-bit types.  Plus the Skip/Emit clause, decided in the "
+         "compiler (E1, finite domain): the text_output attribute value is a symbolic choice flowing through the real front-end "
+         "passes and header generator, for seven kinds of field; the generated text-output clause is present iff not Skip.",
+    note="NOT claimed: the rest of the structure level of C06 (UpdateFromText(WriteToString(view)) reads back equal, emission order, "
          "comments/multiline options) -- std::ostringstream/std::string growth/virtual dispatch are not encodable by ll2smt. "
          "Outside the bounds: decimal texts with more than 4 (quick) / 6 (thorough) free digits after a concrete head, base-10 "
          "round trip of 32/64-bit values (10^k chains do not bit-blast in time in z3 or cvc5).  Assumes libstdc++ std::string layout.",
